@@ -595,3 +595,107 @@ func ruleSignificantPayloadUnaltered(p *Program, r *Report) {
 }
 
 func init() { register("C13", Rule{"R13e", ruleSignificantPayloadUnaltered}) }
+
+// R13f: one constant image, one kind.  A return of FromArrai that yields a constant (nil, "", an empty map built from
+// nothing) with a nil error encodes *some* values of that type as that constant.  If values of two different types
+// can be encoded as the same constant, decoding cannot give both back: e.g. a number class mapped to null next to the
+// empty set, which is null already.
+func ruleConstantImagesDistinct(p *Program, r *Report) {
+	r.Begin("R13f", "constant images are not shared between kinds: under each strict setting, TS-SCCP of Translator.FromArrai per value type collects the constant results returned with a nil error on any executable return; no constant is the image of values of two different types", 2)
+	defer r.End()
+	fa := p.Method("translate", "Translator", "FromArrai")
+	if fa == nil {
+		r.Undecided("anchor", "translate.Translator.FromArrai not found", 0)
+		return
+	}
+	r.Fn(FnName(fa))
+	// a private engine with two declared refinements that the canonical forms guarantee (R02g: one empty set):
+	// a value whose representation is not EmptySet answers IsTrue() with true, and only TrueSet equals True
+	base := relSCCP(p, r)
+	s := NewSCCP(p)
+	s.GlobalConst = base.GlobalConst
+	trueT := p.NamedType("rel", "TrueSet")
+	s.CallHook = func(callee *ssa.Function, args []AVal) ([]AVal, bool) {
+		if len(args) == 0 || callee.Signature.Recv() == nil {
+			return nil, false
+		}
+		tn := shortT(callee.Signature.Recv().Type()) // the method found for the receiver's dynamic type
+		switch callee.Name() {
+		case "IsTrue":
+			if tn != "EmptySet" && callee.Signature.Results().Len() == 1 {
+				return []AVal{VBool(true)}, true
+			}
+		case "Equal":
+			if len(args) == 2 && args[1].K == ADyn && trueT != nil && types.Identical(Deref(args[1].T), trueT) && tn != "TrueSet" {
+				return []AVal{VBool(false)}, true
+			}
+		}
+		return nil, false
+	}
+	pdFA := NewPostDom(fa)
+	for _, strict := range []bool{true, false} {
+		recv := AVal{K: ATop, F: map[string]constant.Value{"strict": constant.MakeBool(strict)}}
+		images := map[string][]string{}
+		where := map[string]token.Pos{}
+		for _, T := range p.ValueTypes() {
+			name := shortT(T)
+			if isFunctionRepr(p, s, T) {
+				continue
+			}
+			res := s.Analyze(fa, []AVal{recv, DynCtx(T)})
+			if res == nil || res.Panics {
+				continue
+			}
+			seen := map[string]bool{}
+			for _, b := range fa.Blocks {
+				if !res.Exec[b] {
+					continue
+				}
+				ret, ok := b.Instrs[len(b.Instrs)-1].(*ssa.Return)
+				if !ok || len(ret.Results) != 2 || !IsNilConst(RetVal(ret, 1)) {
+					continue
+				}
+				// a return selected by `v.Equal(<one value>)` encodes a single value, not a class of values
+				single := false
+				for _, d := range pdFA.TransitiveControlDeps(b) {
+					if cond := IfCond(d.Br); cond != nil && res.Exec[d.Br] && DependsOn(cond, func(x ssa.Value) bool {
+						c, ok := x.(*ssa.Call)
+						return ok && c.Call.IsInvoke() && c.Call.Method.Name() == "Equal"
+					}) {
+						single = true
+					}
+				}
+				if single {
+					continue
+				}
+				img := ""
+				switch y := RetVal(ret, 0).(type) {
+				case *ssa.Const:
+					img = y.String()
+				case *ssa.MakeInterface:
+					if k, ok := y.X.(*ssa.Const); ok {
+						img = k.String()
+					}
+				}
+				if img == "" || seen[img] {
+					continue
+				}
+				seen[img] = true
+				images[img] = append(images[img], name)
+				where[img+"/"+name] = ret.Pos()
+			}
+		}
+		for _, img := range SortedKeys(images) {
+			ts := images[img]
+			sort.Strings(ts)
+			key := fmt.Sprintf("image@strict=%v/%s", strict, img)
+			if len(ts) == 1 {
+				r.OK(key, "image of "+ts[0]+" only", fa.Pos())
+				continue
+			}
+			r.Viol(key, fmt.Sprintf("with strict=%v values of %s can all be encoded as the constant %s: after decoding they are one value, so the codec does not round-trip for at least one of these types", strict, strings.Join(ts, " and "), img), where[img+"/"+ts[len(ts)-1]])
+		}
+	}
+}
+
+func init() { register("C13", Rule{"R13f", ruleConstantImagesDistinct}) }
